@@ -54,8 +54,12 @@ def functions(mod):
     return out
 
 
+def S_(s):
+    return {"t": "str", "s": s}
+
+
 def rand_args(rng):
-    kids = [rand_arg(rng, rng.choice([0, 1, 2])) for _ in range(rng.randint(0, 4))]
+    kids = [rand_arg(rng, rng.choice([0, 1, 2])) if rng.random() < 0.7 else {"k": "text", "s": gen.text_of(rng)} for _ in range(rng.randint(0, 4))]
     dicts = [[[rng.choice(RAW_NAMES), rand_value(rng)] for _ in range(rng.randint(0, 3))] for _ in range(rng.randint(0, 2))]
     kw = [[rng.choice([n for n in RAW_NAMES if n not in ("_",)]), rand_value(rng)] for _ in range(rng.randint(0, 3))]
     return {"kids": kids, "dicts": dicts, "kw": kw}
@@ -121,9 +125,15 @@ def check_function(ctx, modname, name, f, inline, n_random):
     if a is b or a.children is b.children or a.attrs is b.attrs:
         ctx.violation("tag-function-shares-state", "%s.%s returns shared objects" % (modname, name), wit)
         return
-    # pass-through
-    for _ in range(n_random):
-        args = rand_args(rng)
+    # pass-through: deterministic probes first (every function gets the same argument shapes), then random lists
+    T = lambda s_: {"k": "text", "s": s_}
+    probes = [{"kids": [T(x)], "dicts": [], "kw": []} for x in ("\nx", "\n", " lead", "trail ", "\t", "", "<b>&amp;", "\r\nq", "a\nb")]
+    probes += [{"kids": [T("\nx"), T("\ny")], "dicts": [[["id", S_("i")]]], "kw": [["class_", S_("c")]]},
+               {"kids": [{"k": "html", "s": "\n<i>"}], "dicts": [], "kw": []},
+               {"kids": [{"k": "num", "v": 0}, {"k": "none"}, {"k": "list", "t": "tuple", "c": [T("\nz")]}], "dicts": [], "kw": [["data_x", {"t": "true"}]]},
+               {"kids": [], "dicts": [[["style", S_("a:b;")]], [["style", S_("c:d;")]]], "kw": [["style", S_("e:f;")]]},
+               {"kids": [gen.TAG("span", T("\nin"), ws=False)], "dicts": [], "kw": [["title", S_("\nt")]]}]
+    for args in probes + [rand_args(rng) for _ in range(n_random)]:
         w2 = dict(wit, args=args)
         try:
             pos, kw = build_args(args)
